@@ -173,6 +173,21 @@ namespace svp
     }
   };
 
+  template <typename V, typename W, typename T, typename CI, typename A>
+  void copy_ranges (V& v, W& x, InIt<T> ii, FwIt<T> fi, RaIt<T> ri, T *p, CI pos, const A& a, yes)
+  {
+    using O = ops<V>;
+    O::template range_ops<InIt<T>> (v, ii, ii, pos, a);
+    O::template range_ops<FwIt<T>> (v, fi, fi, pos, a);
+    O::template range_ops<RaIt<T>> (v, ri, ri, pos, a);
+    O::template range_ops<T *> (v, p, p, pos, a);
+    O::template range_ops<const T *> (v, p, p, pos, a);
+    O::template range_ops<typename W::iterator> (v, x.begin (), x.end (), pos, a);
+    O::template range_ops<typename W::const_iterator> (v, x.cbegin (), x.cend (), pos, a);
+  }
+  template <typename V, typename W, typename T, typename CI, typename A>
+  void copy_ranges (V&, W&, InIt<T>, FwIt<T>, RaIt<T>, T *, CI, const A&, no) { }
+
   template <typename T, unsigned N, unsigned M, typename A>
   void drive (gch::small_vector<T, N, A>& v, gch::small_vector<T, N, A>& w,
               gch::small_vector<T, M, A>& x, T& rv, const A& a, std::size_t n0,
@@ -198,13 +213,7 @@ namespace svp
     O::observers (v, cv, n);
     O::compare (cv, cv);
     O::gen_ops (n, g, a);
-    O::template range_ops<InIt<T>> (v, ii, ii, pos, a);
-    O::template range_ops<FwIt<T>> (v, fi, fi, pos, a);
-    O::template range_ops<RaIt<T>> (v, ri, ri, pos, a);
-    O::template range_ops<T *> (v, p, p, pos, a);
-    O::template range_ops<const T *> (v, p, p, pos, a);
-    O::template range_ops<typename W::iterator> (v, x.begin (), x.end (), pos, a);
-    O::template range_ops<typename W::const_iterator> (v, x.cbegin (), x.cend (), pos, a);
+    copy_ranges<V, W> (v, x, ii, fi, ri, p, pos, a, tag<caps<T>::copy && caps<T>::copy_assign> { });
     O::template range_ops<std::move_iterator<T *>> (v, std::move_iterator<T *> (p),
                                                     std::move_iterator<T *> (p), pos, a);
 
